@@ -30,6 +30,22 @@ var _ = verifRegister("C38", streamC38)
 
 var c38ErrNotFound = errors.New("c38: file does not exist in the repository")
 var c38ErrTooSmall = errors.New("c38: file too small")
+var c38ErrFail = errors.New("c38: backend failure")
+
+// c38Fault is the fault of one Load of the wrapped backend: "N" none, "F" failure before the
+// body, "L<n>": the body ends after n bytes with a clean EOF, the consumer returns, and only then
+// Load reports the error (like util.DefaultLoad returning rd.Close()'s error)
+type c38Fault struct {
+	kind string
+	n    int
+}
+
+func (f c38Fault) tok() string {
+	if f.kind == "L" {
+		return fmt.Sprintf("L%d", f.n)
+	}
+	return f.kind
+}
 
 // c38Be wraps a backend: per name the content can be overridden or the file made to look deleted;
 // after a whole-file Load (a download by the cache) a scripted interference is applied.
@@ -46,6 +62,7 @@ type c38Be struct {
 	fallback  bool
 	cellPath  string
 	downloads int
+	faults    []c38Fault // consumed by successive Loads of `watch`
 }
 
 func (b *c38Be) IsNotExist(err error) bool {
@@ -56,9 +73,15 @@ func (b *c38Be) Load(ctx context.Context, h backend.Handle, length int, offset i
 	b.mu.Lock()
 	del := b.deleted[h.Name]
 	ov, hasOv := b.override[h.Name]
+	fault := c38Fault{kind: "N"}
+	if h.Name == b.watch && len(b.faults) > 0 {
+		fault, b.faults = b.faults[0], b.faults[1:]
+	}
 	b.mu.Unlock()
 	var err error
 	switch {
+	case fault.kind == "F":
+		err = c38ErrFail
 	case del:
 		err = c38ErrNotFound
 	case hasOv:
@@ -69,7 +92,18 @@ func (b *c38Be) Load(ctx context.Context, h backend.Handle, length int, offset i
 			if length > 0 {
 				buf = buf[:length]
 			}
-			err = fn(bytes.NewReader(buf))
+			if fault.kind == "L" {
+				n := fault.n
+				if n > len(buf) {
+					n = len(buf)
+				}
+				err = fn(bytes.NewReader(buf[:n]))
+				if err == nil {
+					err = c38ErrFail
+				}
+			} else {
+				err = fn(bytes.NewReader(buf))
+			}
 		}
 	default:
 		err = b.Backend.Load(ctx, h, length, offset, fn)
@@ -169,6 +203,8 @@ func streamC38(h *H) {
 			c38Conc(h)
 		case i%9 == 8:
 			c38Blob(h)
+		case i%9 == 2 || i%9 == 5:
+			c38Cb(h)
 		default:
 			c38Raw(h)
 		}
@@ -308,9 +344,24 @@ func c38Raw(h *H) {
 				g.note(bs)
 			}
 		}
+		// backend faults (only when nobody interferes: then each cache load makes at most one backend call)
+		be.faults = nil
+		faultToks := []string{"N", "N"}
+		if advToks[0] == "N" && advToks[1] == "N" && h.Intn(3) == 0 {
+			for a := 0; a < 2; a++ {
+				f := h.c38Fault(len(beBytes))
+				be.faults = append(be.faults, f)
+				faultToks[a] = f.tok()
+			}
+		}
 		be.mu.Unlock()
 		g.note(beBytes)
-		h.Rec("load", c38Tok(beBytes, bePresent), cellTok, advToks[0], advToks[1], beState, cellState)
+		for _, f := range be.faults {
+			if f.kind == "L" && f.n <= len(beBytes) {
+				g.note(beBytes[:f.n])
+			}
+		}
+		h.Rec("load", c38Tok(beBytes, bePresent), cellTok, advToks[0], advToks[1], beState, cellState, faultToks[0], faultToks[1])
 		var buf []byte
 		var lerr error
 		panicked, msg := Protect(func() { buf, lerr = repo.LoadRaw(context.Background(), ft, id) })
@@ -324,6 +375,111 @@ func c38Raw(h *H) {
 			} else {
 				h.Rec("res", cls)
 			}
+		}
+		after := "A"
+		if cellPath != "" {
+			after = c38ReadCell(cellPath)
+		}
+		h.Rec("after", after)
+		h.Rec("endload")
+	}
+	h.End()
+}
+
+func (h *H) c38Fault(size int) c38Fault {
+	switch h.Intn(5) {
+	case 0:
+		return c38Fault{kind: "F"}
+	case 1, 2:
+		return c38Fault{kind: "L", n: h.Intn(size + 2)}
+	}
+	return c38Fault{kind: "N"}
+}
+
+// history of Load calls at the cacheBackend level (no hash check above it): the cache alone must
+// never store or serve bytes that differ from the repository's file
+func c38Cb(h *H) {
+	c, dir := c38NewCache()
+	defer os.RemoveAll(dir)
+	be := &c38Be{Backend: mem.New(), override: map[string][]byte{}, deleted: map[string]bool{}}
+	cb := c.Wrap(be, func(string, ...any) {})
+	kind := h.Pick([]string{"index", "snapshot", "mpack", "mpack", "pack", "key", "index"})
+	hd := backend.Handle{}
+	switch kind {
+	case "index":
+		hd.Type = backend.IndexFile
+	case "snapshot":
+		hd.Type = backend.SnapshotFile
+	case "mpack":
+		hd.Type, hd.IsMetadata = backend.PackFile, true
+	case "pack":
+		hd.Type = backend.PackFile
+	case "key":
+		hd.Type = backend.KeyFile
+	}
+	d := h.Bytes(1 + h.Intn(30))
+	id := restic.ID(sha256.Sum256(d))
+	hd.Name = id.String()
+	cellPath := ""
+	if kind != "key" {
+		cellPath = cache.VerifC38Filename(c, hd)
+	}
+	be.watch, be.cellPath = hd.Name, cellPath
+	present := h.Intn(10) != 0
+	be.override[hd.Name] = d
+	be.deleted[hd.Name] = !present
+	cellTok, cellState := "A", "missing"
+	if kind != "key" {
+		switch r := h.Intn(10); {
+		case r < 5:
+		case r < 8:
+			os.MkdirAll(filepath.Dir(cellPath), 0o700)
+			os.WriteFile(cellPath, d, 0o600)
+			cellTok, cellState = Hex(d), "intact"
+		default:
+			os.MkdirAll(filepath.Dir(cellPath), 0o700)
+			st, cbytes := h.c38Corrupt(d)
+			os.WriteFile(cellPath, cbytes, 0o600)
+			cellTok, cellState = Hex(cbytes), st
+		}
+	}
+	h.Case("cb")
+	h.Rec("cbinit", kind, c38Tok(d, present), cellTok, cellState)
+	nloads := 2 + h.Intn(3)
+	for l := 0; l < nloads; l++ {
+		length, offset := 0, 0
+		switch h.Intn(4) {
+		case 0:
+			offset = h.Intn(len(d) + 1)
+			length = h.Intn(len(d) - offset + 1)
+		case 1:
+			offset = h.Intn(len(d) + 2)
+			length = h.Intn(len(d) + 2)
+		}
+		f := c38Fault{kind: "N"}
+		if h.Intn(2) == 0 {
+			f = h.c38Fault(len(d))
+		}
+		be.mu.Lock()
+		be.faults = []c38Fault{f}
+		be.mu.Unlock()
+		h.Rec("cbload", Itoa(length), Itoa(offset), f.tok())
+		var got []byte
+		var lerr error
+		panicked, msg := Protect(func() {
+			lerr = cb.Load(context.Background(), hd, length, int64(offset), func(rd io.Reader) error {
+				b, e := io.ReadAll(rd)
+				got = b
+				return e
+			})
+		})
+		switch {
+		case panicked:
+			h.Rec("res", "panic", HexS(msg))
+		case lerr == nil:
+			h.Rec("res", "ok", Hex(got))
+		default:
+			h.Rec("res", c38Class(be, lerr))
 		}
 		after := "A"
 		if cellPath != "" {
